@@ -5,9 +5,12 @@ import (
 	"flag"
 	"fmt"
 	"os"
+	"runtime/debug"
+	"runtime/pprof"
 	"sort"
 	"strconv"
 	"strings"
+	"time"
 
 	"verif/engine/interp"
 )
@@ -18,6 +21,8 @@ func (m *multiFlag) String() string     { return strings.Join(*m, ",") }
 func (m *multiFlag) Set(s string) error { *m = append(*m, s); return nil }
 
 func main() {
+	// the interpreter allocates a map per frame: trade memory for fewer collections
+	debug.SetGCPercent(400)
 	if len(os.Args) < 2 {
 		usage()
 	}
@@ -177,6 +182,19 @@ func cmdCheck(args []string) int {
 	var seed int64
 	if s := os.Getenv("VERIF_SEED"); s != "" {
 		seed, _ = strconv.ParseInt(s, 10, 64)
+	}
+	if pf := os.Getenv("VERIF_PPROF"); pf != "" {
+		f, err := os.Create(pf)
+		if err == nil {
+			pprof.StartCPUProfile(f)
+			defer pprof.StopCPUProfile()
+			go func() {
+				time.Sleep(90 * time.Second)
+				pprof.StopCPUProfile()
+				f.Close()
+				os.Exit(3)
+			}()
+		}
 	}
 	p := props[id]
 	if p == nil {
